@@ -59,8 +59,9 @@ def process_signature(app, what, name, obj, options,
             and not _is_staticmethod(parent, name.rpartition('.')[2])):
         try:
             obj = _util.safe_get(obj, object(), type(parent))
-        except TypeError:
+        except Exception:
             # descriptors implemented in C insist on an instance of parent
+            # (TypeError); others need what a real instance carries
             pass
     try:
         obj_sig = specifiers.signature(obj)
